@@ -83,6 +83,9 @@ def predicates(s, fs, pv, px, py, desc, strict=False):
             return "Verify counts %d usable parity volumes, %d are present and intact" % (pus, vols_present)
         if unusable <= pus and py["res"] == "ok" and px["res"] != "ok":
             return "%d unusable data files <= %d usable parity volumes but Repair failed with %s" % (unusable, pus, px["res"])
+        # the same without consulting the model: the only permitted failure is the singular combination
+        if strict and truth_unusable <= vols_present and px["res"] not in ("ok", "err:singular"):
+            return "%d data files are lost or damaged and %d parity volumes are present and intact, but Repair failed with %s" % (truth_unusable, vols_present, px["res"])
         if unusable > pus and px["res"] == "ok":
             return "Repair succeeded with more unusable files (%d) than parity volumes (%d)" % (unusable, pus)
     return None
